@@ -79,7 +79,7 @@ type T struct {
 	Extra   map[string]int // engine-defined additive counters (evaluations of sub-cases etc)
 	Cases   []uint64       // additional distinct non-trivial case hashes (for enumerating engines)
 	maxEv   int
-	Sample  any // optional structured sample for evidence
+	Sample  any    // optional structured sample for evidence
 	Digest  string // optional digest of everything the SUT returned in this run (C06 cross-process check)
 	// Replaying tells engines that this run is a replay of a recorded trace
 	// (they may spend more on confirmation work).
